@@ -8,13 +8,17 @@ All theorems are about histories of ANY length with ANY number of identity chang
 return to an identity seen before.  Values are an abstract type; the algebraic laws conservation needs are hypotheses
 and `Int` satisfies them (examples).
 
-Genuine restriction (probed on the real code — candidate finding): `conservation` and `per_pid_gauge` assume that no two
-LIVE value objects share one (file prefix, key) (`huniq`).  Two live objects on one key (two metrics of the same name in
-different registries, or a child kept after `remove()` while `labels()` re-created it) each keep their own cached float
-and overwrite each other's writes: `two_objects_lose_updates` shows M doing exactly that (3 increments, cell = 2), as the
-real code does.  `writes_only_own_files` and `rebinding_reads_current` need no such assumption.
+Genuine restriction (probed on the real code): `conservation` and `per_pid_gauge` assume that every UPDATE goes through
+the YOUNGEST value object on its (file prefix, key) (`OpsOK` / `WUniq`): an older object on the same key must not be
+updated once a younger one exists.  Stale objects themselves are harmless — after `remove()`/`clear()` and `labels()`
+again the dropped child stays in the closure's `values` list and is re-bound on every identity change, but it only
+re-reads, it never writes — so histories with remove/clear + re-creation satisfy the hypothesis.  What is excluded is
+USING both: two metrics of one name in different registries, or a child handle kept and updated after `remove()` while
+`labels()` re-created it; each keeps its own cached float and they overwrite each other: `two_objects_lose_updates`
+shows M doing exactly that (3 increments, cell = 2), as the real code does.  `writes_only_own_files` and
+`rebinding_reads_current` need no such assumption.
 -/
-import PromVerif.Lemmas.MultiprocessDisk
+import PromVerif.Lemmas.MultiprocessPresence
 
 namespace PromVerif.Props.C09
 open PromVerif.Py PromVerif.Generated.Multiprocess
@@ -64,23 +68,23 @@ theorem rebinding_reads_current (vo : VOps V) (pid0 : Str) (ops : List (Op V))
   have := hc.bound.bound v hv
   exact ⟨by rw [this.2, hc.pid], hc.bound.exist v hv, hc.cached (Or.inl hchg) v hv, hc.cellval _ _⟩
 
-/-- … and after the whole call (any op) every cache is still what its file holds, provided live objects have
-    pairwise different (prefix, key) -/
+/-- … and after the whole call (any op) every cache is still what its file holds, for the youngest value object on
+    each (prefix, key), provided updates only go through the youngest (`OpsOK`) -/
 theorem caches_coherent_partial (vo : VOps V) (pid0 : Str) (ops : List (Op V))
-    (huniq : ((run vo (St.init pid0) ops).values.map (fun v => idOf v.params)).Nodup) :
-    ∀ v ∈ (run vo (St.init pid0) ops).values,
+    (hok : OpsOK [] ops) :
+    ∀ i v, (run vo (St.init pid0) ops).values[i]? = some v → IsLast (idsOf (run vo (St.init pid0) ops)) i →
       cellVal vo (run vo (St.init pid0) ops).disk v.file v.key = (v.value, v.ts) :=
-  (run_inv vo ops _ (inv_init vo pid0) huniq).cached
+  (run_inv vo ops _ (inv_init vo pid0) hok).cached
 
-/-- **per_pid_gauge** (and every other series; `_partial`: missing is the case of two live value objects on one
-    (prefix, key), where the real code loses updates — `two_objects_lose_updates`; excluded by `huniq`): after any history, the entry of series `(pre, k)` in identity `p`'s
+/-- **per_pid_gauge** (and every other series; `_partial`: missing is the case of an UPDATE through a value object that is not the
+    youngest on its (prefix, key), where the real code loses updates — `two_objects_lose_updates`; excluded by `hok`): after any history, the entry of series `(pre, k)` in identity `p`'s
     file is the fold of the updates issued UNDER `p` alone — increments add, a set replaces — starting from zero;
     updates issued under other identities never reach it. -/
 theorem per_pid_gauge_partial (vo : VOps V) (pid0 : Str) (ops : List (Op V)) (pre : Str) (k : Key) (p : Str)
     (hp : '_' ∉ p) (hids : IdsOK pid0 ops)
-    (huniq : ((run vo (St.init pid0) ops).values.map (fun v => idOf v.params)).Nodup) :
+    (hok : OpsOK [] ops) :
     cellVal vo (run vo (St.init pid0) ops).disk (fileName pre p) k = ownCell vo p (updLog vo pre k pid0 [] ops) := by
-  have := run_cell vo pre k p hp ops (St.init pid0) (inv_init vo pid0) huniq hids
+  have := run_cell vo pre k p hp ops (St.init pid0) (inv_init vo pid0) hok hids
   rw [this, ownCell_eq]
   rfl
 
@@ -103,7 +107,7 @@ theorem conservation_general_partial (vo : VOps V) (hcomm : ∀ a b, vo.add a b 
     (hassoc : ∀ a b c, vo.add (vo.add a b) c = vo.add a (vo.add b c))
     (pid0 : Str) (ops : List (Op V)) (pre : Str) (k : Key) (pids : List Str) (hnd : pids.Nodup)
     (hpids : ∀ p ∈ pids, '_' ∉ p) (hids : IdsOK pid0 ops)
-    (huniq : ((run vo (St.init pid0) ops).values.map (fun v => idOf v.params)).Nodup)
+    (hok : OpsOK [] ops)
     (hinc : ∀ u ∈ updLog vo pre k pid0 [] ops, ∃ q a, u = Upd.inc q a ∧ q ∈ pids) :
     aggSum vo (pids.map (fun p => (cellVal vo (run vo (St.init pid0) ops).disk (fileName pre p) k).1))
       = (updLog vo pre k pid0 [] ops).foldl
@@ -113,11 +117,11 @@ theorem conservation_general_partial (vo : VOps V) (hcomm : ∀ a b, vo.add a b 
       = pids.map (fun p => ((updLog vo pre k pid0 [] ops).foldl (ownStep vo p) (vo.zero, vo.zero)).1) := by
     apply List.map_congr_left
     intro p hp
-    rw [per_pid_gauge_partial vo pid0 ops pre k p (hpids p hp) hids huniq, ownCell_eq]
+    rw [per_pid_gauge_partial vo pid0 ops pre k p (hpids p hp) hids hok, ownCell_eq]
   rw [hcell]
   exact sum_ownCells vo hcomm hassoc pids hnd _ hinc (fun _ => (vo.zero, vo.zero))
 
-/-- **conservation** (`_partial` for the same reason as `per_pid_gauge_partial`: `huniq`).  For any history from a fresh directory — any number of identity changes at any positions,
+/-- **conservation** (`_partial` for the same reason as `per_pid_gauge_partial`: `hok`).  For any history from a fresh directory — any number of identity changes at any positions,
     returning to earlier identities included — the sum over ALL identities' files of the entry of series `(pre, k)`
     equals the sum of all increments ever issued to it, in a commutative monoid, provided the series is only
     incremented (`hinc`; a `set`, e.g. `Counter.reset()`, deliberately overwrites).  `pids` is any duplicate-free list
@@ -126,11 +130,11 @@ theorem conservation_partial (vo : VOps V) (hcomm : ∀ a b, vo.add a b = vo.add
     (hassoc : ∀ a b c, vo.add (vo.add a b) c = vo.add a (vo.add b c)) (hzero : ∀ a, vo.add vo.zero a = a)
     (pid0 : Str) (ops : List (Op V)) (pre : Str) (k : Key) (pids : List Str) (hnd : pids.Nodup)
     (hpids : ∀ p ∈ pids, '_' ∉ p) (hids : IdsOK pid0 ops)
-    (huniq : ((run vo (St.init pid0) ops).values.map (fun v => idOf v.params)).Nodup)
+    (hok : OpsOK [] ops)
     (hinc : ∀ u ∈ updLog vo pre k pid0 [] ops, ∃ q a, u = Upd.inc q a ∧ q ∈ pids) :
     aggSum vo (pids.map (fun p => (cellVal vo (run vo (St.init pid0) ops).disk (fileName pre p) k).1))
       = incTotal vo (updLog vo pre k pid0 [] ops) := by
-  rw [conservation_general_partial vo hcomm hassoc pid0 ops pre k pids hnd hpids hids huniq hinc, aggSum_zeros vo hzero]
+  rw [conservation_general_partial vo hcomm hassoc pid0 ops pre k pids hnd hpids hids hok hinc, aggSum_zeros vo hzero]
   rfl
 
 /-! ### several worker generations on one directory: death, `mark_process_dead`, pid reuse
@@ -153,7 +157,7 @@ theorem dead_touches_own_identity_only (q pre p : Str) (hq : '_' ∉ q) (hp : '_
   | false => rfl
   | true => exact absurd (isLiveFileOf_fileName q pre p hq hp h) hne
 
-/-- **world_cell** (`_partial`: `hu` = at every point the acting worker has one live value object per (prefix, key)).
+/-- **world_cell** (`_partial`: `hu` = at every point the acting worker updates only through the youngest value object on a (prefix, key)).
     After ANY world history from an empty directory — any number of worker generations, identity changes, deaths and
     pid reuses — identity `p`'s entry of series `(pre, k)` is the fold over the world log of: the updates issued under
     `p` by whichever generation (increments add, sets replace), and the deaths of `p`, which reset the entry exactly
@@ -210,7 +214,18 @@ theorem conservation_world_partial (vo : VOps V) (hcomm : ∀ a b, vo.add a b = 
   rw [hz]
   rfl
 
-/-! ### non-vacuity and the counter-example behind `huniq` -/
+/-- **entry_present_iff** (no uniqueness assumption).  After any world history from an empty directory, identity `p`'s
+    file of prefix `pre` HAS an entry for key `k` exactly when `wPresent` says so: some call made while `p` was the
+    acting identity constructed a value object on `(pre, k)`, or re-bound one (the first call after an identity change
+    re-binds — and thereby creates at zero — the entries of ALL value objects of the acting worker), and, if the file is
+    a live-gauge file, no later `mark_process_dead(p)` removed it.  An `inc`/`set`/`get` creates nothing by itself. -/
+theorem entry_present_iff (vo : VOps V) (p0 : Str) (hp0 : '_' ∉ p0) (evs : List (Ev V)) (hev : evsIdOK evs)
+    (pre : Str) (k : Key) (p : Str) (hp : '_' ∉ p) :
+    has (wrun vo (St.init p0) evs).disk (fileName pre p) k
+      = wPresent pre k p (isLiveFileOf p (fileName pre p)) p0 p0 [] evs false :=
+  wrun_has vo pre k p hp evs (St.init p0) (bound_init p0) ⟨hp0, hp0⟩ hev
+
+/-! ### non-vacuity and the counter-example behind `OpsOK` -/
 
 /-- `Int` as value type: a commutative monoid with a strict order -/
 def intOps : VOps Int := ⟨0, (· + ·), (fun a b => decide (a < b)), (fun a b => decide (a ≤ b)), (fun x => x != 0)⟩
@@ -249,8 +264,7 @@ theorem demo_ids : IdsOK (V := Int) "1".toList demoOps := by
   simp only [demoOps, List.mem_cons, List.not_mem_nil, or_false, reduceCtorEq, false_or, Op.setPid.injEq] at hp
   rcases hp with h | h | h <;> subst h <;> decide
 
-theorem demo_uniq : ((run intOps (St.init "1".toList) demoOps).values.map (fun v => idOf v.params)).Nodup := by
-  decide
+theorem demo_uniq : OpsOK [] demoOps := opsOKB_sound _ _ (by decide)
 
 /-- the hypotheses of `conservation` are satisfiable by a history with identity changes, and its conclusion computes:
     2 + 3 + 4 + 1 = 10 spread over `counter_1.db` (6) and `counter_2.db` (4) -/
@@ -287,19 +301,18 @@ theorem demoWorld_ids : evsIdOK demoWorld := by
   rcases he with h | h | h | h | h | h | h | h | h | h | h | h | h | h <;> subst h <;>
     first | trivial | (show '_' ∉ _; decide)
 
-/-- executable form of `WUniq` -/
-def wUniqB : St Int → List (Ev Int) → Bool
-  | _, [] => true
-  | st, e :: r => decide (((wstep intOps st e).1.values.map (fun v => idOf v.params)).Nodup) && wUniqB (wstep intOps st e).1 r
+theorem demoWorld_uniq : WUniq intOps (St.init "5".toList) demoWorld := wUniqB_sound intOps _ _ (by decide)
 
-theorem wUniqB_sound (evs : List (Ev Int)) (st : St Int) (h : wUniqB st evs = true) : WUniq intOps st evs := by
-  induction evs generalizing st with
-  | nil => trivial
-  | cons e r ih =>
-    simp only [wUniqB, Bool.and_eq_true, decide_eq_true_eq] at h
-    exact ⟨h.1, ih _ h.2⟩
-
-theorem demoWorld_uniq : WUniq intOps (St.init "5".toList) demoWorld := wUniqB_sound _ _ (by decide)
+/-- presence on this history: identity 5 has its counter entry; identity 7 (never acting) has none; the live gauge entry of
+    5 exists again only because the new worker re-created it after the death -/
+example : has (wrun intOps (St.init "5".toList) demoWorld).disk (fileName "counter".toList "5".toList) (mmapKey pCounter) = true := by
+  decide
+example : has (wrun intOps (St.init "5".toList) demoWorld).disk (fileName "counter".toList "7".toList) (mmapKey pCounter) = false := by
+  decide
+example : has (wrun intOps (St.init "5".toList) (demoWorld.take 8)).disk (fileName "gauge_livesum".toList "5".toList) (mmapKey pLive)
+    = false := by decide
+example : has (wrun intOps (St.init "5".toList) (demoWorld.take 8)).disk (fileName "gauge_sum".toList "5".toList) (mmapKey pSum)
+    = true := by decide
 
 /-- the hypotheses of `world_cell_partial` are satisfiable, and on this history: the counter of the dead-and-reused
     identity holds 2 + 3; the live gauge restarted from zero (0 + 1); the non-live gauge continued (20 + 1) -/
@@ -314,7 +327,19 @@ example : cellVal intOps (wrun intOps (St.init "5".toList) demoWorld).disk (file
 example : cellVal intOps (wrun intOps (St.init "5".toList) demoWorld).disk (fileName "gauge_sum".toList "5".toList) (mmapKey pSum)
     = (21, 0) := by decide
 
-/-- **the counter-example behind `huniq`** (M exhibits the candidate finding): two live value objects on one key, three
+/-- `remove()` + `labels()` again, old handle dropped, under identity changes: index 0 is the dropped child, index 1 the
+    re-created one on the same key; the hypothesis holds and nothing is lost: 1 + 2 + 4 + 8 = 15 -/
+def relabelOps : List (Op Int) :=
+  [.construct pCounter, .inc 0 1, .construct pCounter, .inc 1 2, .setPid "11".toList, .inc 1 4, .setPid "1".toList, .inc 1 8]
+
+example : OpsOK [] relabelOps := opsOKB_sound _ _ (by decide)
+example : aggSum intOps (["1".toList, "11".toList].map (fun p =>
+      (cellVal intOps (run intOps (St.init "1".toList) relabelOps).disk (fileName "counter".toList p) (mmapKey pCounter)).1)) = 15 := by
+  decide
+/-- … whereas the lossy history below violates it (index 0 is updated after index 1 was constructed on the same key) -/
+example : opsOKB (V := Int) [] [.construct pCounter, .construct pCounter, .inc 0 1, .inc 1 1, .inc 0 1] = false := by decide
+
+/-- **the counter-example behind `OpsOK`** (M exhibits the candidate finding): two live value objects on one key, three
     increments issued, the file holds 2 -/
 theorem two_objects_lose_updates :
     cellVal intOps (run intOps (St.init "1".toList)
